@@ -661,6 +661,11 @@ def run_one_path(ex, contract, node, res):
             try:
                 value = coerce(P, value, contract.returns)
             except Unsupported:
+                if isinstance(value, SOpt) and not P.feasible([z3.Not(value.isnone)]):
+                    value = coerce(P, SNone(), contract.returns)     # e.g. `return self._popen` where it is None
+                else:
+                    value = None
+            if value is None:
                 prove(ex, 'post.result_shape', z3.BoolVal(False),
                       'returned %r, declared %s' % (value, contract.returns))
                 raise PathEnd()
